@@ -115,8 +115,9 @@ def check(ctx):
                 pre = ";".join("(%d,%d)" % (k, table[k]) for k in sorted(consts) if k in table)
                 terms.append("(%s, %s)" % (vlib.coq_bytes(c), L.hexify("mk_c056case (%s) (%s) [%s] []" % (v, a, pre))))
             mcfg = gen.coq_config(gcfg)
-            small_i = [i for i, c in enumerate(gkeys) if len(c) <= 1500]
-            big_i = [i for i, c in enumerate(gkeys) if len(c) > 1500]      # too slow for the model's run inside vm_compute
+            small_i = [i for i, c in enumerate(gkeys) if len(c) <= 700]
+            cap = 250000 if ctx.quick else 3000000
+            big_i = [i for i, c in enumerate(gkeys) if len(c) > 700 and len(terms[i]) <= cap]      # too slow for the model's run inside vm_compute
             bs = vlib.run_cases(ctx, "coverage-" + tag, L.HEADER, [terms[i] for i in small_i], timeout=1800,
                                 per_shard=min(60, max(1, len(small_i) // 32 + 1)), fn="(fun t => c06m_code (fst t) (%s) (snd t))" % mcfg)
             bb = vlib.run_cases(ctx, "coverage-long-" + tag, L.HEADER, [terms[i] for i in big_i], per_shard=4, timeout=1800,
